@@ -45,7 +45,7 @@ def format_token(res, facts):
             shape = []
             for kind, x in ch:
                 if kind == "lit":
-                    shape.append(x)
+                    shape.append("<header>" if x == "HDR" else x)
                 elif isinstance(x, A.StrV):
                     shape.append("<header>" if x.s == "HDR" else repr(x.s))
                 elif isinstance(x, A.Seq) and x.name == "P":
